@@ -338,6 +338,9 @@ def decorate(g, rnd, typed=0.25, dflt=0.25, vtypes=True, strings=0.2, ctx=0.0, r
             # helper functor _eK: the K-th right-side value is passed through (needs a nonterminal of the same value type at K)
             ks = [k for k, sy in enumerate(r.rhs) if sy[0] == 'n' and g.vtypes[sy[1]] == vt and k < 9]
             if ks: g.rules[i] = Rule(r.lhs, r.rhs, r.prec, 'e%d' % (rnd.choice(ks) + 1))
+    if ctx:
+        for i, r in enumerate(g.rules):
+            if r.ftor == 'x' and rnd.random() < 0.3: g.rules[i] = Rule(r.lhs, r.rhs, rnd.choice([1, 2, 3]), r.ftor)
     g.note += '+decorated'
     return g
 
